@@ -808,9 +808,13 @@ func c15DirCase(c *Cfg, base string, id int, r *Rng) {
 	}
 	// our own listing: regular files outside VCS directories, as (slash path, size)
 	var list []c15File
+	var tree []string // everything in the tree, for the replay
 	filepath.WalkDir(root, func(p string, d fs.DirEntry, err error) error {
 		if err != nil || p == root {
 			return nil
+		}
+		if r, err := filepath.Rel(root, p); err == nil {
+			tree = append(tree, fmt.Sprintf("%s %q", d.Type().String(), filepath.ToSlash(r)))
 		}
 		if d.IsDir() {
 			switch d.Name() {
@@ -861,8 +865,59 @@ func c15DirCase(c *Cfg, base string, id int, r *Rng) {
 	for _, f := range list {
 		words = append(words, c15FEntWord(f))
 	}
-	c.Direct(same, "dir-vs-list", "CheckDir and CheckFiles on the same regular files disagree (valid / invalid / size / nomod)",
-		map[string]any{"files": words, "dir_valid": rel(dcf.Valid), "list_valid": lv, "dir_invalid": inv(dcf.Invalid, true), "list_invalid": inv(lcf.Invalid, false)})
+	class := "dir-vs-list"
+	if !same {
+		// known finding: the directory walk skipped a directory as a nested module
+		// (it holds an entry named cue.mod) but the file-list check did not omit all of its
+		// files.  Only when EVERY difference lies beneath such a skipped directory.
+		var skipped []string
+		for _, e := range dcf.Omitted {
+			if c15WhyKind(e.Err) == "submoduledir" {
+				x, _ := filepath.Rel(root, e.Path)
+				skipped = append(skipped, filepath.ToSlash(x)+"/")
+			}
+		}
+		under := func(p string) bool {
+			for _, d := range skipped {
+				if strings.HasPrefix(p, d) {
+					return true
+				}
+			}
+			return false
+		}
+		explained := len(skipped) > 0
+		diff := func(a, b []string) {
+			m := map[string]bool{}
+			for _, x := range b {
+				m[x] = true
+			}
+			for _, x := range a {
+				if !m[x] && !under(x) {
+					explained = false
+				}
+			}
+		}
+		dv, di, li := rel(dcf.Valid), inv(dcf.Invalid, true), inv(lcf.Invalid, false)
+		diff(dv, lv)
+		diff(lv, dv)
+		diff(di, li)
+		diff(li, di)
+		if (dcf.SizeError != nil) != (lcf.SizeError != nil) {
+			// a size difference is explained only if the skipped files account for it: the
+			// directory side must be the one without the error
+			if dcf.SizeError != nil {
+				explained = false
+			}
+		}
+		if (dcf.NoModError != nil) != (lcf.NoModError != nil) && !(dcf.NoModError != nil && under("cue.mod/module.cue")) {
+			explained = false
+		}
+		if explained {
+			class = "dir-vs-list-nested-cuemod"
+		}
+	}
+	c.Direct(same, class, "CheckDir and CheckFiles on the same regular files disagree (valid / invalid / size / nomod)",
+		map[string]any{"files": words, "tree": tree, "dir_valid": rel(dcf.Valid), "list_valid": lv, "dir_invalid": inv(dcf.Invalid, true), "list_invalid": inv(lcf.Invalid, false)})
 	c.Count(fmt.Sprintf("dir/valid=%d err=%v", min(len(dcf.Valid), 4), dcf.Err() != nil))
 	// CreateFromDir → Unzip reproduces the valid files (small trees only)
 	var total int64
@@ -891,8 +946,11 @@ func c15DirCase(c *Cfg, base string, id int, r *Rng) {
 	defer os.RemoveAll(s.root)
 	uerr := modzip.Unzip(s.target, c15Mod, zipPath)
 	outsideOK, onlyRegular, files, _, what := s.check()
-	ok := uerr == nil && outsideOK && onlyRegular && len(files) == len(lv)
-	for _, p := range lv {
+	// the baseline is what CheckDir itself reported valid (CheckDir and the file list may
+	// disagree: see the dir-vs-list predicate above)
+	dvalid := rel(dcf.Valid)
+	ok := uerr == nil && outsideOK && onlyRegular && len(files) == len(dvalid)
+	for _, p := range dvalid {
 		n, have := files[p]
 		src, _ := os.ReadFile(filepath.Join(root, filepath.FromSlash(p)))
 		if !have || n.size != int64(len(src)) || (n.size <= 1<<16 && n.data != string(src)) {
@@ -917,6 +975,38 @@ func c15NamesFit(names []string) bool {
 		}
 	}
 	return true
+}
+
+// c15WitnessEmptyCueMod replays the minimal witness of the known finding on the real code:
+// {cue.mod/module.cue, sub/x.cue} plus an EMPTY directory sub/cue.mod.
+func c15WitnessEmptyCueMod(c *Cfg, base string) {
+	root := filepath.Join(base, "witness-empty-cuemod")
+	defer os.RemoveAll(root)
+	os.MkdirAll(filepath.Join(root, "cue.mod"), 0o777)
+	os.MkdirAll(filepath.Join(root, "sub", "cue.mod"), 0o777)
+	os.WriteFile(filepath.Join(root, "cue.mod", "module.cue"), []byte("module: \"example.com/m@v0\"\nlanguage: version: \"v0.9.0\"\n"), 0o666)
+	os.WriteFile(filepath.Join(root, "sub", "x.cue"), []byte("package sub\n"), 0o666)
+	dcf, _ := modzip.CheckDir(root)
+	list := []c15File{{path: "cue.mod/module.cue", kind: 'f', size: 51, clen: -1}, {path: "sub/x.cue", kind: 'f', size: 12, clen: -1}}
+	lcf, _ := modzip.CheckFiles(list, c15FIO{})
+	c.Direct(len(dcf.Valid) == len(lcf.Valid), "dir-vs-list-nested-cuemod",
+		"CheckDir and CheckFiles disagree on {cue.mod/module.cue, sub/x.cue} + empty directory sub/cue.mod: the directory check omits sub/x.cue, the file-list check accepts it",
+		map[string]any{"dir_valid": len(dcf.Valid), "list_valid": len(lcf.Valid)})
+	// second mechanism: splitCUEMod reports only the innermost cue.mod of a path, so
+	// a/cue.mod/b/cue.mod/x.cue does not mark a/ as a module for the file list
+	os.RemoveAll(root)
+	os.MkdirAll(filepath.Join(root, "cue.mod"), 0o777)
+	os.MkdirAll(filepath.Join(root, "a", "cue.mod", "b", "cue.mod"), 0o777)
+	os.WriteFile(filepath.Join(root, "cue.mod", "module.cue"), []byte("module: \"example.com/m@v0\"\nlanguage: version: \"v0.9.0\"\n"), 0o666)
+	os.WriteFile(filepath.Join(root, "a", "y.cue"), []byte("package a\n"), 0o666)
+	os.WriteFile(filepath.Join(root, "a", "cue.mod", "b", "cue.mod", "x.cue"), []byte("x: 1\n"), 0o666)
+	dcf, _ = modzip.CheckDir(root)
+	list = []c15File{{path: "a/cue.mod/b/cue.mod/x.cue", kind: 'f', size: 5, clen: -1}, {path: "a/y.cue", kind: 'f', size: 10, clen: -1},
+		{path: "cue.mod/module.cue", kind: 'f', size: 51, clen: -1}}
+	lcf, _ = modzip.CheckFiles(list, c15FIO{})
+	c.Direct(len(dcf.Valid) == len(lcf.Valid), "dir-vs-list-nested-cuemod",
+		"CheckDir and CheckFiles disagree on {cue.mod/module.cue, a/y.cue, a/cue.mod/b/cue.mod/x.cue}: the directory check omits a/y.cue, the file-list check accepts it",
+		map[string]any{"dir_valid": len(dcf.Valid), "list_valid": len(lcf.Valid)})
 }
 
 // c15HostOK: every element is a usable name on the host (no NUL/empty/dot elements, ≤ 255 bytes)
@@ -978,6 +1068,7 @@ func runC15(c *Cfg) {
 	c15RoundTripCases(c, r.Sub(), base)
 	lap("round trips")
 	c15Par(r.Sub(), c.Pick(300, 4000), func(i int, rr *Rng) { c15DirCase(c, base, i, rr) })
+	c15WitnessEmptyCueMod(c, base)
 	lap("directories")
 	c15EscapeCases(c, r.Sub())
 }
